@@ -185,18 +185,23 @@ def check_popen_wait(c, f):
     ws0 = cfg_nodes_with_call(f, lambda k: callee_last(k) == 'wait' and (ctext(k.func.value, f) or '').endswith('.proc'))
     c.need(len(ws0) == 1, 'PopenSpawn.wait: self.proc.wait() not found')
     wtext = norm(ws0[0][1].func)
-    for code, want in ((0, (0, None)), (1, (1, None)), (255, (255, None)), (-1, (None, 1)), (-15, (None, 15))):
-        ev = Evaluator(env={'self.exitstatus': 'unset', 'self.signalstatus': 'unset', 'self.terminated': 'unset'},
-                       hooks={wtext: lambda args, e_, code=code: code}, what='PopenSpawn.wait')
+    reads_rc = any(isinstance(x, ast.Attribute) and x.attr == 'returncode' for x in ast.walk(f.node))
+    cases = [(code, want, None) for code, want in ((0, (0, None)), (1, (1, None)), (255, (255, None)), (-1, (None, 1)), (-15, (None, 15)))]
+    if reads_rc:
+        # the routine looks at Popen.returncode (a child that was already collected): both situations, for every kind of return code
+        cases = cases + [(code, want, code) for code, want, _ in cases]
+    for code, want, rc_ in cases:
+        ev = Evaluator(env={'self.exitstatus': 'unset', 'self.signalstatus': 'unset', 'self.terminated': 'unset', 'self.proc': {'returncode': rc_}},
+                       hooks={wtext: lambda args, e_, code=code: code, '.wait': lambda args, e_, code=code: code}, what='PopenSpawn.wait')
         kind, val = ev.call(f.node)
         got = (ev.env.get('self.exitstatus'), ev.env.get('self.signalstatus'))
         what = ('an exit code %d is recorded as exitstatus=%d, signalstatus=None' % (code, code)) if code >= 0 else \
             ('a return code %d (killed by signal %d) is recorded as exitstatus=None, signalstatus=%d' % (code, -code, -code))
         c.check(kind == 'return' and got == want and type(got[0]) is type(want[0]) and type(got[1]) is type(want[1]), f, ws0[0][1], what,
-                witness='wait() %ss %r; exitstatus=%r signalstatus=%r' % (kind, val, got[0], got[1]), kind='alg', tag='popen-code:%d' % code)
+                witness='wait() %ss %r; exitstatus=%r signalstatus=%r' % (kind, val, got[0], got[1]), kind='alg', tag='popen-code:%d%s' % (code, '' if rc_ is None else ':collected'))
         c.check(ev.env.get('self.terminated') is True, f, ws0[0][1], 'terminated = True after wait() (return code %d)' % code,
-                witness='terminated=%r' % (ev.env.get('self.terminated'),), kind='alg', tag='popen-terminated:%d' % code)
-        c.check(kind == 'return' and val == code, f, ws0[0][1], 'wait() returns the return code (%d)' % code, witness='%s %r' % (kind, val), kind='alg', tag='popen-returns:%d' % code)
+                witness='terminated=%r' % (ev.env.get('self.terminated'),), kind='alg', tag='popen-terminated:%d%s' % (code, '' if rc_ is None else ':collected'))
+        c.check(kind == 'return' and val == code, f, ws0[0][1], 'wait() returns the return code (%d)' % code, witness='%s %r' % (kind, val), kind='alg', tag='popen-returns:%d%s' % (code, '' if rc_ is None else ':collected'))
 
 
 MUTANTS = [
